@@ -38,6 +38,8 @@ def main():
             det = []
             for c in checks:
                 env = dict(os.environ, VERIF_REPO=wt, VERIF_NO_EVIDENCE="1")
+                if "--full" not in sys.argv:
+                    env["VERIF_STOP_ON_VIOLATION"] = "1"   # detection is the question: stop the batch at the first unexplained violation
                 env.pop("VERIF_REEXEC", None)
                 t = time.time()
                 p = sh(os.path.join(VERIF, "check"), c, "--tier", "quick", env=env, cwd=VERIF)
